@@ -3,6 +3,7 @@
    not yet proved is decided on every run by the lock-step co-simulation (model = implementation on every
    explored schedule) together with the monitors run on the implementation's own observations. *)
 From RaftV Require Import Cluster.Statements Proofs.RVSpec Proofs.AESpec Proofs.ReadSpec Proofs.LeaseSpec.
+From RaftV Require Import Proofs.ContactSpec.
 Open Scope N_scope.
 
 (* becomeFollower (every term change, every step-down) never touches the commit index, the applied index, the
@@ -37,3 +38,21 @@ Theorem C17_lease_extended_only_by_a_voter_majority_of_the_current_term : forall
    has_quorum (conf_of n) (round_count (bump_round n rid) rid) = true /\ n_lease n' = now + n_ld n).
 Proof. exact ae_reply_lease. Qed.
 Print Assumptions C17_lease_extended_only_by_a_voter_majority_of_the_current_term.
+
+(* The voter's side of the lease argument (node level, every state and request): a leader renews its lease with ANY
+   same-term response of a voter, success or not; correspondingly the voter records the leader contact for EVERY
+   AppendEntries request of its own or a newer term - accepted, or rejected because its log does not match - so that for a
+   whole election timeout after answering it refuses every vote request (C16_sticky_voter_refuses_and_does_not_change).
+   (Seeded change C17-A6 moves the refresh to the success path only: the model then differs from the code.) *)
+Theorem C17_every_current_term_append_entries_records_contact : forall now n q,
+  role_eqb (n_role n) Shutdown = false -> (ae_term q <? n_term n) = false ->
+  let n' := fst (h_append_entries now n q) in n_contact n' = now /\ n_et n' = n_et n /\ n_id n' = n_id n.
+Proof. exact ae_records_contact. Qed.
+Print Assumptions C17_every_current_term_append_entries_records_contact.
+
+Theorem C17_voter_within_election_timeout_of_an_append_entries_has_recent_contact : forall now n q later,
+  role_eqb (n_role n) Shutdown = false -> (ae_term q <? n_term n) = false ->
+  now <= later -> later < now + n_et n ->
+  recent_contact later (fst (h_append_entries now n q)) = true.
+Proof. exact ae_makes_recent_contact. Qed.
+Print Assumptions C17_voter_within_election_timeout_of_an_append_entries_has_recent_contact.
